@@ -485,6 +485,29 @@ func c14wShrink(h []c14wOp) []c14wOp {
 
 func c14Wide(c *config, r *rng) {
 	o := c.out
+	// printing twice in a row, first print of a constructed module: references to unnamed blocks of functions
+	// that are printed later (KF-39)
+	for variant := 0; variant < 4; variant++ {
+		m := ir.NewModule()
+		early := m.NewFunc("early", types.NewPointer(types.I8))
+		f := m.NewFunc("f", types.Void, ir.NewParam("", types.I32))
+		e := f.NewBlock("")
+		for k := 0; k < variant; k++ {
+			e.NewAdd(f.Params[0], f.Params[0])
+		}
+		bb := f.NewBlock("")
+		e.NewBr(bb)
+		bb.NewRet(nil)
+		early.NewBlock("").NewRet(constant.NewBlockAddress(f, bb))
+		m.NewGlobalDef("g", constant.NewBlockAddress(f, bb))
+		var a, b string
+		oc, _ := guard(func() error { a = m.String(); b = m.String(); return nil })
+		if oc != ocOk || a != b {
+			o.Fail("print_twice", "", "the first and the second print of a constructed module differ", map[string]interface{}{"first": a, "second": b})
+		} else {
+			o.Pass("print_twice")
+		}
+	}
 	for i := 0; i < 1500*c.scale; i++ {
 		h := c14wGen(r, 5+r.intn(60))
 		with, second := c14wRun(h, true)
